@@ -96,8 +96,13 @@ def gen_case(rng, tier, index):
         ops.append({"ws": "B", "host": "h1", "upload": False, "mode": "forced", "jobs": rng.choice([1, 2]),
                     "seed": rng.getrandbits(32), "expect_all_downloaded": True, "fresh": rng.random() < 0.5})
     if rng.random() < 0.25:
-        case["damage"] = {"before_op": rng.randrange(1, len(ops) + 1), "kind": rng.choice(["truncate", "flip", "delete"]),
+        case["damage"] = {"before_op": rng.randrange(1, len(ops) + 1), "kind": rng.choice(["truncate", "flip", "delete", "repack", "repack"]),
                           "pick": rng.getrandbits(16), "pos": rng.random()}
+    # some invocations run without audit trail generation (-A): downloads must be verified all the same
+    for i, o in enumerate(ops):
+        if "mode" in o and o["mode"] != "no" and not o.get("upload"):
+            if rng.random() < (0.5 if case.get("damage", {}).get("before_op") == i else 0.1):
+                o["no_audit"] = True
     return case
 
 def directed_cases(tier):
@@ -145,6 +150,13 @@ def directed_cases(tier):
                {"ws": "B", "host": "h1", "upload": True, "mode": "yes", "jobs": 1, "seed": rng.getrandbits(32), "fresh": True},
                {"ws": "B", "host": "h1", "upload": False, "mode": "yes", "jobs": 1, "seed": rng.getrandbits(32), "fresh": True}]
         out.append({"model": model, "wss": ["A", "B"], "ops": ops, "directed": "fingerprinted and non-relocatable package, two locations"})
+    # a damaged artifact met by an invocation that runs without audit trail generation
+    for kind, pos in (("repack", 0.55), ("repack", 0.1), ("flip", 0.8)):
+        model = projgen.gen_valid_project(rng, nmin=3, nmax=4, features={"import", "vars"})
+        ops = [{"ws": "A", "host": "h1", "upload": True, "mode": "no", "jobs": 1, "seed": rng.getrandbits(32), "fresh": True},
+               {"ws": "B", "host": "h1", "upload": False, "mode": "yes", "jobs": 1, "seed": rng.getrandbits(32), "fresh": True, "no_audit": True}]
+        out.append({"model": model, "wss": ["A", "B"], "ops": ops, "directed": "damaged artifact, download without audit generation",
+                    "damage": {"before_op": 1, "kind": kind, "pick": rng.getrandbits(16), "pos": pos}})
     return out
 
 def all_reloc(model):
@@ -303,6 +315,24 @@ def _run_live(case, top, stats, log):
                           "consistent build of commit %s: %s" % (case["move"], case["drop"], case["mode"], restarted, c[:10], diffs)}
     return None
 
+def _repack_flip(data, pos):
+    """Decompress, flip one byte inside the data of a content member, compress again."""
+    import gzip, io, tarfile
+    try:
+        raw = bytearray(gzip.decompress(data))
+        with tarfile.open(fileobj=io.BytesIO(bytes(raw)), mode="r:") as tf:
+            cands = [m for m in tf.getmembers() if m.isfile() and m.size > 0 and m.name.startswith("content/")]
+        if not cands:
+            return None
+        m = cands[int(pos * len(cands)) % len(cands)]
+        raw[m.offset_data + int(pos * m.size) % m.size] ^= 0x01
+        buf = io.BytesIO()
+        with gzip.GzipFile(fileobj=buf, mode="wb", mtime=0) as gz:
+            gz.write(bytes(raw))
+        return buf.getvalue()
+    except Exception:
+        return None
+
 def _artifacts(arch):
     out = []
     for root, dirs, files in os.walk(arch):
@@ -365,6 +395,11 @@ def run_case(case):
                     data = common.read_file(victim)
                     if dmg["kind"] == "truncate":
                         common.write_file(victim, data[: int(len(data) * dmg["pos"])])
+                    elif dmg["kind"] == "repack" and data:
+                        # a structurally valid artifact whose content no longer is what its audit trail records
+                        new = _repack_flip(data, dmg["pos"])
+                        if new is not None:
+                            common.write_file(victim, new)
                     elif dmg["kind"] == "flip" and data:
                         i = int((len(data) - 1) * dmg["pos"])
                         common.write_file(victim, data[:i] + bytes([data[i] ^ 0x10]) + data[i + 1:])
@@ -381,7 +416,10 @@ def run_case(case):
                 mats[w] = None
             mats[w] = projgen.materialise(model, proj, clock, mats[w])
             common.write_file(hostfile, op["host"] + "\n")
-            argv = ["dev", "-j", str(op["jobs"]), "--download", op["mode"]] + (["--upload"] if op["upload"] else []) + ["root"]
+            argv = ["dev", "-j", str(op["jobs"]), "--download", op["mode"]] + (["--upload"] if op["upload"] else []) + \
+                   (["--no-audit"] if op.get("no_audit") else []) + ["root"]
+            if op.get("no_audit"):
+                stats.inc("invocations_without_audit")
             r = buildsim.bob(proj, argv, {"sched_seed": op["seed"]})
             ran = buildsim.step_scripts(r)
             m = re.search(r"(\d+) packages? built, (\d+) downloaded", r.output)
